@@ -97,6 +97,16 @@ CHECKS = {
          "Header: 2916 camera descriptions encoded as the camera daemon does, with a sentinel after the blank line, and every truncation point of a subset. Stream: every arrangement of 3 (6 thorough) frames with <=2 'clear' markers at any gap, under greedy reads, one-byte reads, every single cut point of the byte stream and every pair of cut points around header end and markers; resulting files must equal the recordings predicted by driving a real MotionProcessor directly (each frame once, in order, reset at each marker).",
          "sendCameraSpecs needs camera hardware: its 3-line encoder is reproduced and bound to the source by the static extraction (stage c), which is syntactic, not an exploration. Pairs of cuts away from markers/header end are not enumerated.",
          "DESIGN.md §4 C14"),
+ "C16": ("B-controlled-scheduler",
+         "stateless exploration of all interleavings up to a preemption bound (iterative context bounding) of the real handleConn and the real request paths under a cooperative scheduler, on syntactically instrumented copies of the sources; vector-clock happens-before race detection on watched locations",
+         "Six scenarios (ring capacity 1,2,3; one or two snapshots; test-recording request; CameraInfo; reconnect with a complete and with a truncated header): every interleaving with <=1 (quick) / <=2 (thorough, complete: 401 515 executions) preemptions, scheduling points at every lock operation, every access to processor/headerInfo/CurrentFrame/StartSnapshot/ring index and every statement of the Boson parse loop and Frame.Copy/CreateCopy. Oracle: snapshots are uniform-valued (not a mixture), not older than the last frame processed when requested, no deadlock/panic, all frames processed, no watched conflicting accesses unordered by lock happens-before.",
+         "Five genuine defects are recorded as known findings (races on processor, headerInfo, CurrentFrame, StartSnapshot; torn snapshot at ring capacity 1) and printed as KNOWN-FINDING; one (CameraInfo nil dereference) was fixed. SC interleavings at instrumented points; weak-memory effects only via the race check. D-Bus transport itself is not modelled (request bodies are called directly).",
+         "DESIGN.md §4 C16"),
+ "C18": ("B-controlled-scheduler",
+         "stateless exploration of all interleavings up to a deviation bound (preemptions + timer fires) of thermal-writer's real reader and writer goroutines under a cooperative scheduler; happens-before race detection on the frame buffers; CPTR parse oracle",
+         "The real handleConn + writer on instrumented copies (channel send/receive/close, go, select with the rotation timer and Go's random pick as explored choices): buffer pool scaled to 1,2,3 with 0..2N+2 frames, trailing partial frame, short read, and the original 256 with 258 frames (bound 1); every interleaving with <=2 (3 thorough) deviations. Files must parse as CPTR and concatenate to exactly the frames sent; no deadlock/panic; buffer fill and buffer write must be ordered by channel happens-before.",
+         "inFlight and the 32 MiB bufio size are scaled by the instrumenter (run-time parameter / literal override); frame size 8 bytes. SC interleavings at channel-operation granularity + HB race check.",
+         "DESIGN.md §4 C18"),
 }
 NOT_BUILT = "check not built yet (work in progress)"
 
@@ -132,6 +142,8 @@ def main():
         "engines": [
             {"name": "A-sequential-explorer", "path": "kit/ev, kit/canon, harness/checks", "serves_properties": sorted(i for i in CHECKS if CHECKS[i][0].startswith("A")),
              "kind_free_text": "stateless exhaustive enumeration of operation/event/environment-answer sequences on fresh real objects + explicit-state BFS on reflection-derived canonical keys"},
+            {"name": "B-controlled-scheduler", "path": "kit/vsched, kit/vsync, kit/vtime, kit/cmd/vinstr, bin/overlay.sh", "serves_properties": sorted(i for i in CHECKS if CHECKS[i][0].startswith("B-")),
+             "kind_free_text": "cooperative scheduler + iterative-context-bounding DFS explorer + vector-clock race detector; repository sources are instrumented syntactically at check time (go/ast) and swapped in with a build overlay"},
             {"name": "D-end-to-end-driver", "path": "harness/overlay/thermal-recorder/e2e_test.go", "serves_properties": sorted(i for i in CHECKS if CHECKS[i][0].startswith("D-")) + ["C05", "C13"],
              "kind_free_text": "in-memory net.Conn with an explicit segmentation schedule + generated config.toml driving the real ParseConfig/handleConn; results are the files on disk"},
             {"name": "C-crash-point-enumerator", "path": "kit/vos, kit/vtime, bin/overlay.sh, harness/overlay/thermal-recorder", "serves_properties": sorted(i for i in CHECKS if CHECKS[i][0].startswith("C-")),
